@@ -286,10 +286,16 @@ def step (st : St) (cmd : String) (args : List String) : St × String :=
         | none => (st, "ok")
       | none => bad st "skewgrid"
     | _, _ => bad st "skewgrid"
+  | "rmtrack", [v] =>
+    match st.db, lookupVar st v with
+    | some d, some id =>
+      ({ st with db := some (dbRemove d id) }, "ok")
+    | _, _ => bad st "rmtrack"
   | "get", v :: toks =>
     match st.db, lookupVar st v with
     | some d, some id =>
       match toks with
+      | ["valid"] => (st, if dbIsValid d id then "ok 1" else "ok 0")
       | ["filename"] =>
         (st, match d.rows id with
           | some r => "ok " ++ hexBytes (getDerived r .filename)
